@@ -30,7 +30,7 @@ func eqInt(v value.Type, want int) bool {
 	return ok && i == want
 }
 
-func memReplay(h []memOp) (step int, msg string) {
+func memReplay(h []memOp, pregrow int) (step int, msg string) {
 	step = -1
 	defer func() {
 		if e := recover(); e != nil {
@@ -38,6 +38,13 @@ func memReplay(h []memOp) (step int, msg string) {
 		}
 	}()
 	mems := []*memory.Type{memory.New()}
+	if pregrow > 0 {
+		// grow the main stack once, beforehand: it never reallocates afterwards
+		for i := 0; i < pregrow; i++ {
+			mems[0].Push(value.Nil)
+		}
+		mems[0].ResetSP()
+	}
 	widths := [][]int{{}}
 	cur := 0
 	type capt struct {
@@ -47,8 +54,11 @@ func memReplay(h []memOp) (step int, msg string) {
 	refs := []capt{}
 	closW := [][]int{{}} // width of the referenced frame per closure stack entry
 	idx := func(s string, w int) int {
-		if s == "first" {
+		if s == "first" || w == 1 {
 			return 0
+		}
+		if s == "second" {
+			return 1
 		}
 		return w - 1
 	}
@@ -132,14 +142,15 @@ func cmdMemReplay() {
 	n, bad := 0, 0
 	for in.Scan() {
 		var o struct {
-			H []memOp `json:"h"`
+			H       []memOp `json:"h"`
+			Pregrow int     `json:"pregrow"`
 		}
 		if err := json.Unmarshal(in.Bytes(), &o); err != nil {
 			fmt.Fprintln(os.Stderr, "vh memreplay: bad line:", err)
 			os.Exit(2)
 		}
 		n++
-		if step, msg := memReplay(o.H); msg != "" {
+		if step, msg := memReplay(o.H, o.Pregrow); msg != "" {
 			bad++
 			emit(w, M{"mismatch": o, "step": step, "why": msg})
 		}
